@@ -229,3 +229,18 @@ def c03(ctx):
                 "runs inside every Trace_Val check (C04, C07, C08, C09, C11)")
     simple(ctx, "MC_C03", "Trace_Val", floor=0.5)
     ctx.exhaustive = True
+
+
+@plan("C27")
+def c27(ctx):
+    ctx.rule = ("TLC enumerates ordered pairs of 55 (thorough 110) primitive sets over a grid (intervals with all "
+                "open/closed and infinite end combinations, finite sets, the named number sets, empty and universal "
+                "set) under union / intersection / complement through the free functions and the methods, seeded "
+                "three-set combinations, and closure / interior / boundary of interval-and-finite-set unions; each "
+                "result is probed at 35 points (every grid value, a rational and an irrational inside every gap, two "
+                "non-real numbers): membership in the dumped result must equal the boolean combination of the "
+                "operands' memberships, and contains() must not contradict it")
+    cases = ctx.gen("MC_C27")
+    events = ctx.drive("base", cases, env={"SEV_CASE_TIMEOUT": "5"}, max_crashes=400)
+    bad = ctx.validate("Trace_C27", events, floor=0.5)
+    ctx.judge(bad, cases)
